@@ -21,6 +21,7 @@ def c01(run):
 
 
 def c02(run):
+    wire_design(run, [], mode="equal")      # the model's bytes ARE the pinned rendering: full equality after every step
     run.trace("roundtrip-wild", Q(run, 4, 200))
     run.trace("roundtrip-canon", Q(run, 2, 100), seed_off=100)
     run.trace("tables", Q(run, 1, 6), seed_off=200)
@@ -31,18 +32,19 @@ def c02(run):
     return run.finish(RULE_TRACE)
 
 
-def wire_design(run, devs):
+def wire_design(run, devs, mode="clauses"):
     """the WireMachine design model (exhaustive over histories), its sensitivity configurations, and direction A"""
     run.wire_model(Q(run, "MCWire_d3.cfg", "MCWire_d5.cfg"), note="every history of <= %s public operations over the frame universe: FramesRight, ObjectReports, HeadDecodes, ChannelShape, AppendOnly" % Q(run, 3, 5))
     for cfg, inv in devs:
         run.wire_model(cfg, expect=inv)
-    run.behaviour_replay(Q(run, "MCWire_export3.cfg", "MCWire_export4.cfg"), sample=None)
+    run.behaviour_replay(Q(run, "MCWire_export3.cfg", "MCWire_export4.cfg"), sample=None, mode=mode)
 
 
 RULE_WIRE = ("design model: WireMachine.tla, exhaustive over every history of <= 3 (quick) / 5 (thorough) public operations {Encode of each of 10 sample "
              "messages (every frame type with and without body, a plain message), SetStale, Decode, Next(1|5|one frame), Reset, WriteRaw}; the named "
              "deviations must violate FramesRight. A: every exported behaviour (depth 3; thorough: all ~200,000 of depth 4) is executed on the real "
-             "types and the result, unread bytes and object are compared with the model after every step. ")
+             "types; for C02 the result, unread bytes and object must equal the model's after every step, for the other properties the recorded "
+             "events are judged by the trace specification with that property's clauses. ")
 
 
 def c04(run):
